@@ -359,8 +359,8 @@ theorem hookRestore_binv (c : SCfg) (s : SState) (hi : BInv s) (hg : GoodB (step
 def notif1 (s : SState) : SState := ({ s with pos := s.pos + 1 } : SState).inPhase [.draining] "notification drained"
 
 def notifA (s1 : SState) (id : Nat) (failed retried : Bool) (nid : Nat) (f r : Bool) : SState :=
-  if nid == id && f == failed && r == retried then s1
-  else s1.note .B s!"notification {id} {failed} {retried} drained, model expected {nid} {f} {r}"
+  if nid == id && f == failed && r == retried && !s1.tripDue then s1
+  else s1.note .B s!"notification {id} {failed} {retried} drained, model expected {nid} {f} {r} (trip due before it: {s1.tripDue})"
 
 def notifC (s1 : SState) (id : Nat) (failed retried : Bool) (nid : Nat) (f r : Bool) (rest : List (Nat × ScenKey × Bool × Bool)) : SState :=
   { (notifA s1 id failed retried nid f r).checkExpectDone "before a notification" with notifs := rest }
